@@ -75,8 +75,28 @@ def one(rng, system):
         l = Line("pred", "P.C10", [system, a, ""], note="oracle raised " + out)
         l.expect = "no-error-expected"
         lines.append(l)
+    again = False
+    if sent is not None and rng.random() < 0.2:
+        # the same tree object asked again after its tokens were edited in place (retagged, a word replaced)
+        again = True
+        for x in rng.sample(trees.terminals(b), min(2, len(trees.terminals(b)))):
+            if rng.random() < 0.5:
+                x.data['word'] = rng.choice(["neu", "Wort", "x"])
+            else:
+                x.data['label'] = rng.choice(["XY", "NN2", "VBZ"])
+        a2 = proto.enc_tree(b)
+        try:
+            with quiet():
+                sent2, tr2 = getattr(transitions, system)(b)
+            out2 = enc_acts(tr2)
+        except Exception as e:
+            out2, sent2 = proto.err_name(e), None
+        lines.append(Line("corr", system, [a2], out2))
+        if sent2 is not None:
+            lines.append(Line("pred", "P.C10", [system, a2, out2]))
+            lines.append(Line("pred", "P.C10.sentence", [a2, ",".join("%s/%s" % (proto.enc_s(w), proto.enc_s(p)) for (w, p) in sent2)]))
     n = len(trees.terminals(b))
-    return Case(system, {"tree": proto.pretty_tree(b), "calls": tx.calls_str(calls), "transitions": out[:80],
+    return Case(system, {"tree": proto.pretty_tree(b), "calls": tx.calls_str(calls), "transitions": out[:80], "asked-again-after-edit": again,
                          "read-as-part-of-a-treebank": batch}, lines,
                 nontrivial=n > 2, tags=(["disc"] if disc else []) + (["batch-read"] if batch else []))
 
